@@ -27,6 +27,10 @@ def run(prop, tier, seed_, replay=None):
         from . import c10
 
         return c10.run_c11(tier, seed_)
+    if prop == "C12":
+        from . import c12
+
+        return c12.run(tier, seed_)
     if prop == "C19":
         from . import c19
 
